@@ -1,6 +1,7 @@
 // C16 harness: the real PopValidator / checkPopData on real threads.
 //
 //   <id> check <workers> <seed> <maxdelay_us> <spec> <dup> <stopmode> <rounds> <realhash> [<maxATV>/<maxVTB>/<maxVBK>]
+//   <id> multi <workers> <seed> <maxdelay_us> <rounds> <spec>,<dup> ...   2..4 caller threads share one validator
 //   <id> ring <size> <ops..>     the real tp::MPMCBoundedQueue<uint64_t>: u<val> push, o pop -> 1|0 per push, <val>|- per pop
 //
 // spec: one character per payload, in submission order (context blocks first, then ATVs):
@@ -25,6 +26,7 @@
 
 #include <atomic>
 #include <chrono>
+#include <condition_variable>
 #include <map>
 #include <memory>
 #include <mutex>
@@ -345,6 +347,88 @@ int main() {
         else { uint64_t v = 0; out += q.pop(v) ? " " + std::to_string(v) : std::string(" -"); }
       }
       return std::to_string(a.size() - 1) + out;
+    }
+    if (op == "multi" && a.size() >= 6) {
+      // <id> multi <workers> <seed> <maxdelay_us> <rounds> <spec>,<dup> <spec>,<dup> ...   (2..4 callers)
+      // ONE validator shared by several caller threads, each checking its own PopData at the same time. Every call
+      // must return (no exception, no deadlock within the watchdog) the one-by-one verdict of ITS OWN PopData,
+      // whatever the other callers submitted; each PopData is destroyed right after its call returned.
+      size_t workers = (size_t)std::stoul(a[0]);
+      uint64_t seed = std::stoull(a[1]);
+      uint32_t maxdelay = (uint32_t)std::stoul(a[2]);
+      uint32_t rounds = (uint32_t)std::stoul(a[3]);
+      g_realhash = false;
+      g_alt.mMaxATVsInAltBlock = 1000; g_alt.mMaxVTBsInAltBlock = 200; g_alt.mMaxVbkBlocksInAltBlock = 200;
+      g_seed.store(seed);
+      std::vector<std::string> specs;
+      std::vector<bool> dups;
+      for (size_t i = 4; i < a.size(); i++) {
+        auto c = a[i].find(',');
+        std::string sp = a[i].substr(0, c);
+        specs.push_back(sp == "-" ? std::string() : sp);
+        dups.push_back(c != std::string::npos && a[i].substr(c + 1) == "1");
+      }
+      size_t k = specs.size();
+      std::unique_ptr<PopValidator> val(new PopValidator(g_vbk, g_btc, g_alt, workers));
+      std::string out;
+      for (uint32_t r = 0; r < rounds; r++) {
+        std::vector<std::string> expect(k);
+        std::vector<std::unique_ptr<PopData>> pds(k);
+        for (size_t c = 0; c < k; c++) {
+          expect[c] = sequential(specs[c], dups[c], r * 16 + (uint32_t)c, seed);
+          pds[c] = build(specs[c], dups[c], r * 16 + (uint32_t)c, seed);
+        }
+        g_maxdelay.store(maxdelay);
+        // shared between the callers and the watchdog; deliberately leaked if a caller never returns
+        struct Shared { std::mutex m; std::condition_variable cv; size_t done = 0; std::vector<std::string> got; };
+        auto sh = std::make_shared<Shared>();
+        sh->got.resize(k);
+        std::vector<std::thread> ts;
+        PopValidator* v = val.get();
+        for (size_t c = 0; c < k; c++) {
+          PopData* pd = pds[c].release();
+          ts.emplace_back([sh, v, pd, c, maxdelay] {
+            std::string res;
+            bool ok = true;
+            try {
+              ValidationState st;
+              ok = checkPopData(*v, *pd, st);
+              res = verdict_of(ok, st);
+            } catch (const std::exception& e) {
+              res = std::string("exception:") + e.what();
+            } catch (...) {
+              res = "exception:unknown";
+            }
+            delete pd;  // the caller may destroy its PopData as soon as its call returned
+            if (!ok) std::this_thread::sleep_for(std::chrono::microseconds(200 + 2 * (uint64_t)maxdelay));
+            std::lock_guard<std::mutex> g(sh->m);
+            sh->got[c] = res;
+            sh->done++;
+            sh->cv.notify_all();
+          });
+        }
+        bool all;
+        {
+          std::unique_lock<std::mutex> g(sh->m);
+          all = sh->cv.wait_for(g, std::chrono::seconds(300), [&] { return sh->done == k; });
+        }
+        if (!all) {
+          vh::oracle_fail(id, "round " + std::to_string(r) + ": a caller did not return from checkPopData within the 300 s watchdog");
+          std::cout.flush();
+          std::_Exit(3);
+        }
+        for (auto& t : ts) t.join();
+        g_maxdelay.store(0);
+        for (size_t c = 0; c < k; c++) {
+          if (sh->got[c] != expect[c])
+            vh::oracle_fail(id, "round " + std::to_string(r) + " caller " + std::to_string(c) + " (" + (specs[c].empty() ? "-" : specs[c]) +
+                                    "): concurrent=" + sh->got[c] + " one-by-one=" + expect[c]);
+          out += (c ? "," : (r ? ";" : "")) + sh->got[c];
+        }
+      }
+      val->stop();
+      val.reset();
+      return out;
     }
     if (op != "check" || a.size() < 7) return "UNKNOWN-OP";
     size_t workers = (size_t)std::stoul(a[0]);
